@@ -863,8 +863,8 @@ def u_pq_next(ctx, w, z, p):
 @unit(P, "Reader.__init__", fuc=["yaw.catalog.readers:DataReader.__init__", "yaw.catalog.readers:DataFrameReader.__init__", "yaw.catalog.readers:FitsReader.__init__",
                                 "yaw.catalog.readers:HDFReader.__init__", "yaw.catalog.readers:ParquetReader.__init__", "yaw.catalog.readers:DataChunkReader._reset_iter_state"],
       cases=[dict(cls=c, given=g, degrees=d, opt=o) for c in ("DataFrameReader", "FitsReader", "HDFReader", "ParquetReader") for g in (False, True)
-             for d in (False, True) for o in (False, True)])
-def u_reader_init(ctx, cls, given, degrees, opt):
+             for d in (False, True) for o in (False, True)] + [dict(cls="HDFReader", given=True, degrees=False, opt=True, unequal=True)])
+def u_reader_init(ctx, cls, given, degrees, opt, unequal=False):
     """after construction: the chunk size is the configured one (the module default if none is given), never larger; the unit flag is
     the one passed; the column map holds exactly the given names under their attributes; the record count is the length of the
     source; iteration starts at record 0"""
@@ -877,25 +877,42 @@ def u_reader_init(ctx, cls, given, degrees, opt):
         names.update(weight_name="W", redshift_name="Z", patch_name="PID")
     name = f"C18/{cls}.__init__"
 
+    n_other = ctx.fresh_int("n_other_column", lo=1, size=True)
+    if unequal:
+        ctx.assume(n_other.t != n.t, "pre:one column of the file has another length")
+    limit = cs if given else SNum(z3.IntVal(R.CHUNKSIZE))
+
     class Sized:
-        def __init__(s, tag):
-            s.tag = tag
+        def __init__(s, tag, length=None):
+            s.tag, s.length = tag, (n if length is None else length)
 
         def vc_len(s):
-            return n
+            return s.length
 
         def __getitem__(s, key):
-            return Sized((s.tag, key))
+            return Sized((s.tag, key), n_other if (unequal and key == "W") else None)
+
+        def __array__(s, *a, **k):
+            # converting a column object to an array reads it completely, in one request
+            ctx.check(f"{name}/pre@source:a_whole_column_is_read_at_once_only_if_it_fits_into_a_chunk", s.length <= limit,
+                      detail="the constructor converted a lazy column into an array: the whole column is requested in one piece")
+            import numpy as _np
+            return _np.zeros(1)
     src = Sized("source")
     with Patches() as pt:
         pt.set(R, "issue_io_log", lambda *a, **k: None)
         pt.set(R, "fits", types.SimpleNamespace(open=lambda path: {1: types.SimpleNamespace(data=src)}))
         pt.set(R, "h5py", types.SimpleNamespace(File=lambda path, mode="r": src))
         pt.set(R, "parquet", types.SimpleNamespace(ParquetFile=lambda path: types.SimpleNamespace(metadata=types.SimpleNamespace(num_rows=n))))
-        pt.set(R, "common_len_assert", lambda cols: None)
         ctx.canary()
         klass = getattr(R, cls)
         arg = src if cls == "DataFrameReader" else "/data/file"
+        if unequal:
+            # C09: columns of unequal length are refused when the file is opened (the real length check runs on the column objects)
+            r = call(klass, arg, **names, chunksize=cs, degrees=degrees)
+            ctx.check(f"{name}/post_exc[ValueError]:columns_of_unequal_length_are_refused", isinstance(r, Raised) and isinstance(r.exc, ValueError),
+                      detail=f"got {r!r}")
+            return
         r = expect_no_exception(ctx, call(klass, arg, **names, chunksize=cs, degrees=degrees), name)
     want_cs = cs if given else SNum(z3.IntVal(R.CHUNKSIZE))
     ctx.check(f"{name}/post:chunksize_is_the_configured_one_or_the_default", And(r.chunksize <= want_cs, Or(r.chunksize == want_cs, r.chunksize == n)),
